@@ -233,7 +233,7 @@ theorem inCharset_take {iso : Bool} {cs : Str} (k : Nat) (h : inCharset iso cs =
   intro x hx
   exact h x (List.mem_of_mem_take hx)
 
-theorem edgeClean_eq (cs : Str) : edgeClean cs = edgeOk isSpace cs := rfl
+theorem edgeClean_eq (cs : Str) : edgeClean cs = edgeOk (fun c => c == 32) cs := rfl
 
 /-- left padding with a strippable character is undone by `strip` -/
 theorem stripBy_replicate_append {p : Nat → Bool} {s : List Nat} {c : Nat} (k : Nat)
@@ -246,9 +246,18 @@ theorem stripBy_replicate_append {p : Nat → Bool} {s : List Nat} {c : Nat} (k 
   rw [dropWhile_eq_self_of_head (by rw [List.head?_reverse]; exact h.2)]
   simp
 
-theorem strip_rjust {s : Str} (n : Nat) (h : edgeOk isSpace s = true) : strip (rjust s n) = s := by
-  unfold strip rjust
+theorem stripSp_rjust {s : Str} (n : Nat) (h : edgeOk (fun c => c == 32) s = true) :
+    stripBy (fun c => c == 32) (rjust s n) = s := by
+  unfold rjust
   exact stripBy_replicate_append _ h (by decide)
+
+theorem stripSp_ljust {s : Str} (n : Nat) (h : edgeOk (fun c => c == 32) s = true) :
+    stripBy (fun c => c == 32) (ljust s n) = s := by
+  unfold ljust
+  exact stripBy_append_replicate _ h (by decide)
+
+theorem take_self_of_length {α : Type} (l : List α) (n : Nat) (h : l.length = n) : l.take n = l :=
+  List.take_of_length_le (by omega)
 
 theorem ljust_length {s : Str} {n : Nat} (h : s.length ≤ n) : (ljust s n).length = n := by
   simp [ljust]; omega
@@ -406,7 +415,8 @@ theorem encLayout_char (iso : Bool) : EncLayoutT (.char iso) := by
   cases v <;> simp [wf] at h
   rename_i cs
   obtain ⟨hl, hc⟩ := h
-  have ht : cs.take 1 = cs := List.take_of_length_le (by omega)
+  have ht : ljust (cs.take 1) 1 = cs := by
+    rw [List.take_of_length_le (by omega)]; simp [ljust, hl]
   simp [encode, encChar, ht, encodeCs_ok hc, layout, hl]
 
 theorem encLayout_str (iso : Bool) : EncLayoutT (.str iso) := by
@@ -429,7 +439,7 @@ theorem encLayout_fixed (iso : Bool) (n : Nat) (rj : Bool) : EncLayoutT (.fixed 
     have hp : inCharset iso (ljust cs n) = true := by
       unfold ljust; rw [inCharset_append, hc, inCharset_spaces]; rfl
     have := ljust_length hl
-    simp [encode, encFixed, encodeCs_ok hp, layout]
+    simp [encode, encFixed, take_self_of_length _ _ this, encodeCs_ok hp, layout]
     unfold ljust at this ⊢
     simp at this ⊢
     omega
@@ -437,7 +447,7 @@ theorem encLayout_fixed (iso : Bool) (n : Nat) (rj : Bool) : EncLayoutT (.fixed 
     have hp : inCharset iso (rjust cs n) = true := by
       unfold rjust; rw [inCharset_append, hc, inCharset_spaces]; rfl
     have := rjust_length hl
-    simp [encode, encFixed, encodeCs_ok hp, layout]
+    simp [encode, encFixed, take_self_of_length _ _ this, encodeCs_ok hp, layout]
     unfold rjust at this ⊢
     simp at this ⊢
     omega
@@ -449,8 +459,12 @@ theorem encLayout_record (fs : Flds) (q : EncLayoutF fs) : EncLayoutT (.record f
   intro v h
   cases v <;> simp [wf] at h
   rename_i st
-  obtain ⟨hn, hw⟩ := h
-  simp [encode, asStore, hn, q st hw, layout]
+  cases hnil : fs.isNil with
+  | true =>
+    cases fs with
+    | nil => simp [encode, asStore, Flds.isNil, encFields, layout, layoutFields]
+    | cons _ _ _ _ => simp [Flds.isNil] at hnil
+  | false => simp [encode, asStore, hnil, q st h, layout]
 
 theorem encLayout_optrec (fs : Flds) (q : EncLayoutF fs) : EncLayoutT (.optrec fs) := by
   intro v h
@@ -579,7 +593,7 @@ theorem decLayout_fixed (iso : Bool) (n : Nat) (rj : Bool) : DecLayoutT (.fixed 
     rw [hlay]
     simp only [decode, norm]
     rw [take_append_length _ _ _ hlen, decodeCs_ok hp, hlen]
-    simp [strip_ljust n he]
+    simp [stripSp_ljust n he]
   | true =>
     have hp : inCharset iso (rjust cs n) = true := by
       unfold rjust; rw [inCharset_append, hc, inCharset_spaces]; rfl
@@ -588,14 +602,13 @@ theorem decLayout_fixed (iso : Bool) (n : Nat) (rj : Bool) : DecLayoutT (.fixed 
     rw [hlay]
     simp only [decode, norm]
     rw [take_append_length _ _ _ hlen, decodeCs_ok hp, hlen]
-    simp [strip_rjust n he]
+    simp [stripSp_rjust n he]
 
 theorem decLayout_record (fs : Flds) (q : DecLayoutF fs) : DecLayoutT (.record fs) := by
   intro v h tail
   cases v <;> simp [wf] at h
   rename_i st
-  obtain ⟨_, hw⟩ := h
-  have := q st hw [] tail
+  have := q st h [] tail
   simp at this
   simp [decode, layout, this, norm]
 
@@ -755,9 +768,8 @@ theorem normT_record (fs : Flds) (q : NormF fs) : NormT (.record fs) := by
   intro v h
   cases v <;> simp [wf] at h
   rename_i st
-  obtain ⟨hn, hw⟩ := h
-  obtain ⟨q1, q2⟩ := q st hw
-  simp [norm, wf, hn, q1, layout, q2]
+  obtain ⟨q1, q2⟩ := q st h
+  simp [norm, wf, q1, layout, q2]
 
 theorem normFields_cons_ne_nil (n : Nat) (t : Ty) (d : Val) (r : Flds) (st : Store) :
     ∃ y ys, normFields (.cons n t d r) st = y :: ys := ⟨_, _, rfl⟩
@@ -850,12 +862,11 @@ theorem readT_record (fs : Flds) (q : ReadF fs) : ReadT (.record fs) := by
   intro v h p
   cases v <;> simp [wf] at h
   rename_i st
-  obtain ⟨_, hw⟩ := h
   cases p with
   | nil => simp [norm, read]
   | cons hd tl =>
     cases hd with
-    | field k => simp [norm, read, q st hw k tl]
+    | field k => simp [norm, read, q st h k tl]
     | idx i => simp [norm, read]
 
 theorem readT_optrec (fs : Flds) (q : ReadF fs) : ReadT (.optrec fs) := by
@@ -920,23 +931,13 @@ theorem read_all : (∀ t, ReadT t) ∧ (∀ fs, ReadF fs) :=
     readT_record readT_optrec (fun e cs csg cbe _ ih => readT_arr e cs csg cbe ih)
     readF_nil readF_cons
 
-/-! ### the reported length is the number of bytes (on the values where the code as it is gets it right) -/
+/-! ### the reported length is the number of bytes, for every value that encodes at all -/
 
 theorem bind_eq_ok {α β : Type} {x : Except Err α} {f : α → Except Err β} {b : β} :
     (x >>= f) = .ok b ↔ ∃ a, x = .ok a ∧ f a = .ok b := by
   constructor
   · exact bind_ok_inv
   · rintro ⟨a, rfl, h⟩; simpa using h
-
-theorem lenSafe_arr_list (e : Ty) (cs : Nat) (csg cbe : Bool) (xs : List Val) :
-    lenSafe (.arr e cs csg cbe) (.list xs) = xs.all fun x => lenSafe (elemTy e) x := by
-  cases e <;> simp [lenSafe, elemTy]
-
-theorem lenSafe_arr_str (e : Ty) (cs : Nat) (csg cbe : Bool) (s : Str) (h : lenSafe (.arr e cs csg cbe) (.str s) = true) :
-    ∀ c ∈ s, (∀ n bs, encode (elemTy e) (.str [c]) = .ok (n, bs) → lenSafe (elemTy e) (.str [c]) = true) := by
-  intro c hc n bs henc
-  cases e <;> simp [lenSafe, elemTy] at h ⊢
-  all_goals first | exact h c hc | simp [lenSafe]
 
 theorem encItems_len (f : Val → Except Err (Nat × Bytes)) :
     ∀ (xs : List Val), (∀ x ∈ xs, ∀ n bs, f x = .ok (n, bs) → n = bs.length) →
@@ -953,8 +954,8 @@ theorem encItems_len (f : Val → Except Err (Nat × Bytes)) :
       obtain ⟨rfl, rfl⟩ := h3
       simp [e1, e2]
 
-def LenT (t : Ty) : Prop := ∀ v n bs, lenSafe t v = true → encode t v = .ok (n, bs) → n = bs.length
-def LenF (fs : Flds) : Prop := ∀ st n bs, lenSafeF fs st = true → encFields fs st = .ok (n, bs) → n = bs.length
+def LenT (t : Ty) : Prop := ∀ v n bs, encode t v = .ok (n, bs) → n = bs.length
+def LenF (fs : Flds) : Prop := ∀ st n bs, encFields fs st = .ok (n, bs) → n = bs.length
 
 theorem encInt_len {s : Nat} {sg be : Bool} {v : Val} {n : Nat} {bs : Bytes} (h : encInt s sg be v = .ok (n, bs)) :
     n = bs.length := by
@@ -964,28 +965,28 @@ theorem encInt_len {s : Nat} {sg be : Bool} {v : Val} {n : Nat} {bs : Bytes} (h 
     exact (intToBytes_length hb).symm
 
 theorem lenT_int (s : Nat) (sg be : Bool) : LenT (.int s sg be) := by
-  intro v n bs _ h
+  intro v n bs h
   simp only [encode] at h
   exact encInt_len h
 
 theorem lenT_bool : LenT .bool := by
-  intro v n bs _ h
+  intro v n bs h
   simp [encode] at h
   obtain ⟨rfl, rfl⟩ := h; rfl
 
 theorem lenT_char (iso : Bool) : LenT (.char iso) := by
-  intro v n bs hs h
+  intro v n bs h
   cases v <;> simp [encode, encChar, bind_eq_ok] at h
   rename_i cs
   obtain ⟨hb, rfl⟩ := h
   have := encodeCs_eq hb
   subst this
   cases cs with
-  | nil => simp [lenSafe] at hs
-  | cons c r => simp
+  | nil => simp [ljust]
+  | cons c r => simp [ljust]
 
 theorem lenT_str (iso : Bool) : LenT (.str iso) := by
-  intro v n bs _ h
+  intro v n bs h
   cases v <;> simp [encode, encStr, bind_eq_ok] at h
   rename_i cs
   obtain ⟨lb, hlb, b, hb, rfl, rfl⟩ := h
@@ -994,34 +995,24 @@ theorem lenT_str (iso : Bool) : LenT (.str iso) := by
   simp [intToBytes_length hlb]
 
 theorem lenT_fixed (iso : Bool) (k : Nat) (rj : Bool) : LenT (.fixed iso k rj) := by
-  intro v n bs hs h
+  intro v n bs h
   cases v <;> simp [encode, encFixed, bind_eq_ok] at h
   rename_i cs
   obtain ⟨hb, rfl⟩ := h
   have := encodeCs_eq hb
   subst this
-  have hl : cs.length ≤ k := by simpa [lenSafe] using hs
   cases rj
-  · simp [ljust_length hl]
-  · simp [rjust_length hl]
-
-theorem asStore_ok {b : Bool} {v : Val} {st : Store} (h : asStore b v = .ok st) : v = .recd st := by
-  unfold asStore at h
-  split at h
-  · simp at h
-  · cases v <;> simp at h
-    exact congrArg _ h
+  · simp [ljust]; omega
+  · simp [rjust]; omega
 
 theorem lenT_record (fs : Flds) (q : LenF fs) : LenT (.record fs) := by
-  intro v n bs hs h
+  intro v n bs h
   simp only [encode, bind_eq_ok] at h
-  obtain ⟨st, hst, h⟩ := h
-  have := asStore_ok hst
-  subst this
-  exact q st n bs (by simpa [lenSafe] using hs) h
+  obtain ⟨st, _, h⟩ := h
+  exact q st n bs h
 
 theorem lenT_optrec (fs : Flds) (q : LenF fs) : LenT (.optrec fs) := by
-  intro v n bs hs h
+  intro v n bs h
   cases v with
   | none => simp [encode] at h; obtain ⟨rfl, rfl⟩ := h; rfl
   | recd st =>
@@ -1029,57 +1020,46 @@ theorem lenT_optrec (fs : Flds) (q : LenF fs) : LenT (.optrec fs) := by
     | nil => simp [encode] at h; obtain ⟨rfl, rfl⟩ := h; rfl
     | cons a st =>
       simp only [encode, bind_eq_ok, pure_eq_ok] at h
-      obtain ⟨st', hst, ⟨n1, b1⟩, h1, h2⟩ := h
-      have := asStore_ok hst
-      injection this with this
-      subst this
-      have := q _ n1 b1 (by simpa [lenSafe] using hs) h1
+      obtain ⟨st', _, ⟨n1, b1⟩, h1, h2⟩ := h
+      have := q _ n1 b1 h1
       simp at h2
       obtain ⟨rfl, rfl⟩ := h2
       simp [this]; omega
   | _ => simp [encode] at h
 
 theorem lenT_arr (e : Ty) (cs : Nat) (csg cbe : Bool) (ih : LenT (elemTy e)) : LenT (.arr e cs csg cbe) := by
-  intro v n bs hs h
+  intro v n bs h
   rw [encode_arr] at h
   cases v with
   | list xs =>
-    rw [lenSafe_arr_list] at hs
-    simp only [List.all_eq_true] at hs
     simp only [encArr, bind_eq_ok, pure_eq_ok] at h
     obtain ⟨⟨n0, b0⟩, h0, ⟨n1, b1⟩, h1, h2⟩ := h
     have e0 := encInt_len h0
-    have e1 := encItems_len _ xs (fun x hx n bs he => ih x n bs (hs x hx) he) n1 b1 h1
+    have e1 := encItems_len _ xs (fun x _ n bs he => ih x n bs he) n1 b1 h1
     simp at h2
     obtain ⟨rfl, rfl⟩ := h2
     simp [e0, e1]
   | str s =>
-    have hs' := lenSafe_arr_str e cs csg cbe s hs
     simp only [encArr, bind_eq_ok, pure_eq_ok] at h
     obtain ⟨⟨n0, b0⟩, h0, ⟨n1, b1⟩, h1, h2⟩ := h
     have e0 := encInt_len h0
-    have e1 := encItems_len _ (s.map fun ch => Val.str [ch]) (by
-      intro x hx n bs he
-      rw [List.mem_map] at hx
-      obtain ⟨c, hc, rfl⟩ := hx
-      exact ih _ n bs (hs' c hc n bs he) he) n1 b1 h1
+    have e1 := encItems_len _ (s.map fun ch => Val.str [ch]) (fun x _ n bs he => ih x n bs he) n1 b1 h1
     simp at h2
     obtain ⟨rfl, rfl⟩ := h2
     simp [e0, e1]
   | _ => simp [encArr] at h
 
 theorem lenF_nil : LenF .nil := by
-  intro st n bs _ h
+  intro st n bs h
   simp [encFields] at h
   obtain ⟨rfl, rfl⟩ := h; rfl
 
 theorem lenF_cons (k : Nat) (t : Ty) (d : Val) (r : Flds) (pt : LenT t) (qr : LenF r) : LenF (.cons k t d r) := by
-  intro st n bs hs h
-  simp only [lenSafeF, Bool.and_eq_true] at hs
+  intro st n bs h
   simp only [encFields, bind_eq_ok, pure_eq_ok] at h
   obtain ⟨⟨n1, b1⟩, h1, ⟨n2, b2⟩, h2, h3⟩ := h
-  have e1 := pt _ n1 b1 hs.1 h1
-  have e2 := qr st n2 b2 hs.2 h2
+  have e1 := pt _ n1 b1 h1
+  have e2 := qr st n2 b2 h2
   simp at h3
   obtain ⟨rfl, rfl⟩ := h3
   simp [e1, e2]
